@@ -5,12 +5,14 @@
    for every configuration (compression x cipher x mode), every slicing of the input into writes
    and every block cipher that keeps 16-byte blocks.  The compressor is an arbitrary function.
    What the recogniser needs of the caller's data is explicit: `writable_spec` (the name is a
-   non-empty sanitised name, metadata in range, unknown chunks ancillary), `strict_ctx` (key/IV sizes,
-   the PHSF string has PHC shape) and `small_pieces` (every write that reaches the chunk sink is
-   shorter than 2^32 bytes — longer writes are outside the model, as in Entry.data_chunks). *)
+   non-empty sanitised name, metadata in range, unknown chunks ancillary) and `strict_ctx` (key/IV sizes,
+   the PHSF string has PHC shape).  Nothing is asked of the size of the writes that reach the chunk sinks: a write of
+   2^32 bytes or more is cut into several chunks by FlattenWriter<u32::MAX> (builders) and, since fix 45407aa2, by
+   ChunkStreamWriter::write (streaming writers): chunk_sink_bounded / flat_sink_bounded.  `small_pieces` and
+   `compress_small` (premises of every theorem of this file until then) are kept as definitions only. *)
 From PNA Require Import Base Crc32 Name Codec Chunk Archive Entry Flatten Cbc Ctr Pipeline Wf.
-From PNA Require Import BaseFacts NameFacts CodecFacts Crc32Facts ChunkFacts ArchiveFacts EntryFacts CbcFacts CtrFacts
-  StreamFacts WfFacts WfWriterFacts WfAgreeFacts.
+From PNA Require Import BaseFacts NameFacts CodecFacts Crc32Facts ChunkFacts ArchiveFacts PiecesFacts EntryFacts CbcFacts CtrFacts
+  FlattenFacts StreamFacts PipelineFacts WfFacts WfWriterFacts WfAgreeFacts.
 Require Import ZArith ZifyN ZifyNat ZifyBool.
 Open Scope N_scope.
 
@@ -161,22 +163,18 @@ Proof. reflexivity. Qed.
 
 Theorem build_normal_writable cfg ctx sp wcuts :
   writable_spec sp -> strict_ctx ctx -> len (concat wcuts) < 2 ^ 128 ->
-  small_pieces (eff_cfg cfg (sp_kind sp)) ctx (eff_wcuts (sp_kind sp) wcuts) ->
   writable_normal (build_normal cfg ctx sp wcuts).
 Proof.
-  intros (V & NL & TC & TM & TA & PM & XS & EX) SC RS SM.
+  intros (V & NL & TC & TM & TA & PM & XS & EX) SC RS.
   unfold writable_normal, Pipeline.build_normal. cbv zeta.
   cbn [n_hdr n_phsf n_extra n_data n_meta n_xattrs m_raw_size m_compressed m_ctime m_mtime m_atime m_perm
        f_major f_minor f_name f_enc f_mode].
   split; [reflexivity|]. split; [reflexivity|]. split; [exact V|]. split; [exact NL|].
   split; [apply phsf_built; exact SC|]. split; [exact EX|].
-  split.
-  { unfold Pipeline.build_data. apply Forall_app. split; [apply iv_small; exact SC|].
-    unfold flat_sink. apply Forall_filter. exact SM. }
   split; [reflexivity|].
   split.
   { unfold Pipeline.build_data. apply (data_len_built _ ctx (eff_wcuts (sp_kind sp) wcuts)); [exact SC|].
-    unfold flat_sink. apply sum_len_ne. }
+    apply flat_sink_sum_len. }
   split; [destruct (sp_kind sp); cbn [opt_all]; try exact I; exact RS|].
   repeat split; assumption.
 Qed.
@@ -185,7 +183,7 @@ Qed.
 (* 4. Archive::write_file: the streamed chunk sequence is an accepted entry                           *)
 (* ================================================================================================= *)
 Definition streamed_normal (cfg : config) (ctx : cctx) (sp : spec) (wcuts : list bytes) : normal_entry :=
-  let data := iv_part cfg ctx ++ data_pieces cfg ctx wcuts in
+  let data := iv_part cfg ctx ++ chunk_sink (data_pieces cfg ctx wcuts) in
   {| n_hdr := {| f_major := 0; f_minor := 0; f_kind := KFile; f_comp := g_comp cfg;
                  f_enc := g_enc cfg; f_mode := g_mode cfg; f_name := sp_name sp |};
      n_phsf := phsf_part cfg ctx; n_extra := []; n_data := data;
@@ -222,8 +220,8 @@ Lemma strict_normal_streamed cfg ctx sp wcuts : writable_spec sp -> strict_ctx c
 Proof.
   intros (V & NL & TC & TM & TA & PM & _ & _) SC.
   pose proof (phsf_built cfg ctx SC) as PH.
-  pose proof (data_len_built cfg ctx wcuts (data_pieces cfg ctx wcuts) SC eq_refl) as DL.
-  unfold strict_normal, stream_body, streamed_normal, chunk_sink in *. cbv zeta.
+  pose proof (data_len_built cfg ctx wcuts (chunk_sink (data_pieces cfg ctx wcuts)) SC (chunk_sink_sum_len _)) as DL.
+  unfold strict_normal, stream_body, streamed_normal in *. cbv zeta.
   cbn [cdata mk n_hdr]. rewrite strict_fhed_ser by (try reflexivity; exact V). cbn [sbind f_enc f_mode].
   destruct (sp_ctime sp), (sp_mtime sp), (sp_atime sp), (sp_perm sp), (phsf_part cfg ctx);
   cbn [opt_all phsf_ok] in *;
@@ -245,10 +243,10 @@ Proof.
   try (destruct PH as (-> & _ & _)); try rewrite PH; cbn [andb negb]; reflexivity.
 Qed.
 
-Lemma stream_body_chunks cfg ctx sp wcuts : writable_spec sp -> strict_ctx ctx -> small_pieces cfg ctx wcuts ->
+Lemma stream_body_chunks cfg ctx sp wcuts : writable_spec sp -> strict_ctx ctx ->
   Forall entry_chunk (stream_body cfg ctx sp wcuts).
 Proof.
-  intros (_ & _ & TC & TM & TA & PM & _ & _) SC SM. pose proof (phsf_built cfg ctx SC) as PH.
+  intros (_ & _ & TC & TM & TA & PM & _ & _) SC. pose proof (phsf_built cfg ctx SC) as PH.
   unfold stream_body. repeat (apply Forall_app; split).
   - apply Forall_opt_chunk. destruct (sp_ctime sp); cbn [opt_all]; [|exact I]. apply lit_entry_chunk; reflexivity.
   - apply Forall_opt_chunk. destruct (sp_mtime sp); cbn [opt_all]; [|exact I]. apply lit_entry_chunk; reflexivity.
@@ -258,15 +256,15 @@ Proof.
   - apply Forall_opt_chunk. destruct (phsf_part cfg ctx); cbn [opt_all phsf_ok] in *; [|exact I].
     apply lit_entry_chunk; try reflexivity. apply PH.
   - assert (Forall (fun d => len d < 2 ^ 32) (iv_part cfg ctx ++ chunk_sink (data_pieces cfg ctx wcuts))) as F
-      by (apply Forall_app; split; [apply iv_small; exact SC|exact SM]).
+      by (apply Forall_app; split; [apply iv_small; exact SC|apply chunk_sink_bounded]).
     apply Forall_forall. intros c Hc. apply in_map_iff in Hc. destruct Hc as (d & <- & Hd).
     rewrite Forall_forall in F. apply lit_entry_chunk; try reflexivity. exact (F d Hd).
 Qed.
 
-Theorem stream_file_accepted cfg ctx sp wcuts : writable_spec sp -> strict_ctx ctx -> small_pieces cfg ctx wcuts ->
+Theorem stream_file_accepted cfg ctx sp wcuts : writable_spec sp -> strict_ctx ctx ->
   accepted_as (stream_file_chunks cfg ctx sp wcuts) (RNormal (streamed_normal cfg ctx sp wcuts)).
 Proof.
-  intros WS SC SM. pose proof (stream_body_chunks cfg ctx sp wcuts WS SC SM) as B. split.
+  intros WS SC. pose proof (stream_body_chunks cfg ctx sp wcuts WS SC) as B. split.
   - rewrite stream_file_body. constructor.
     + destruct WS as (_ & NL & _). repeat split; try reflexivity. cbn [cdata mk]. rewrite fhed_bytes_len. exact NL.
     + apply Forall_app. split; [|constructor; [exact fend_body_chunk|constructor]].
@@ -301,51 +299,51 @@ Lemma plain_solid_cfg cfg : plain_solid {| s_major := 0; s_minor := 0; s_comp :=
 Proof. unfold plain_solid. cbn [s_comp s_enc]. destruct (g_comp cfg), (g_enc cfg); try discriminate. auto. Qed.
 
 Theorem build_solid_writable cfg ctx extra swcuts :
-  strict_ctx ctx -> Forall sextra_ok extra -> small_pieces cfg ctx swcuts -> plain_inner cfg swcuts ->
+  strict_ctx ctx -> Forall sextra_ok extra -> plain_inner cfg swcuts ->
   writable_solid (build_solid cfg ctx extra swcuts).
 Proof.
-  intros SC EX SM PI. unfold writable_solid, Pipeline.build_solid. cbv zeta.
+  intros SC EX PI. unfold writable_solid, Pipeline.build_solid. cbv zeta.
   cbn [so_hdr so_phsf so_data so_extra s_major s_minor s_enc s_mode].
   split; [reflexivity|]. split; [reflexivity|]. split; [apply phsf_built; exact SC|]. split; [exact EX|].
   split.
   { unfold Pipeline.build_data. apply Forall_app. split; [apply iv_small; exact SC|].
-    unfold flat_sink. apply Forall_filter. exact SM. }
+    eapply Forall_impl; [|apply flat_sink_bounded]. intros p (_ & H). exact H. }
   split.
-  { unfold Pipeline.build_data. apply (data_len_built _ ctx swcuts); [exact SC|]. unfold flat_sink. apply sum_len_ne. }
+  { unfold Pipeline.build_data. apply (data_len_built _ ctx swcuts); [exact SC|]. apply flat_sink_sum_len. }
   intro PS. destruct (plain_solid_cfg _ PS) as (C & N). destruct (PI C N) as (inner & WI & EQ).
   unfold Pipeline.build_data, iv_part, Pipeline.encrypted. rewrite N. cbn [app].
-  unfold flat_sink. rewrite concat_filter_ne', plain_pieces by assumption. rewrite EQ.
+  rewrite flat_sink_concat, plain_pieces by assumption. rewrite EQ.
   unfold solid_plain_stream. rewrite inner_entries_written by exact WI. reflexivity.
 Qed.
 
 Definition streamed_solid (cfg : config) (ctx : cctx) (swcuts : list bytes) : solid_entry :=
   {| so_hdr := {| s_major := 0; s_minor := 0; s_comp := g_comp cfg; s_enc := g_enc cfg; s_mode := g_mode cfg |};
-     so_phsf := phsf_part cfg ctx; so_data := iv_part cfg ctx ++ data_pieces cfg ctx swcuts; so_extra := [] |}.
+     so_phsf := phsf_part cfg ctx; so_data := iv_part cfg ctx ++ chunk_sink (data_pieces cfg ctx swcuts); so_extra := [] |}.
 
 Lemma solid_archive_ser cfg ctx swcuts :
   solid_archive_chunks cfg ctx swcuts = ser_solid (streamed_solid cfg ctx swcuts).
 Proof. reflexivity. Qed.
 
 Theorem streamed_solid_writable cfg ctx swcuts :
-  strict_ctx ctx -> small_pieces cfg ctx swcuts -> plain_inner cfg swcuts ->
+  strict_ctx ctx -> plain_inner cfg swcuts ->
   writable_solid (streamed_solid cfg ctx swcuts).
 Proof.
-  intros SC SM PI. unfold writable_solid, streamed_solid. cbv zeta.
+  intros SC PI. unfold writable_solid, streamed_solid. cbv zeta.
   cbn [so_hdr so_phsf so_data so_extra s_major s_minor s_enc s_mode].
   split; [reflexivity|]. split; [reflexivity|]. split; [apply phsf_built; exact SC|]. split; [constructor|].
-  split; [apply Forall_app; split; [apply iv_small; exact SC|exact SM]|].
-  split; [apply (data_len_built _ ctx swcuts); [exact SC|reflexivity]|].
+  split; [apply Forall_app; split; [apply iv_small; exact SC|apply chunk_sink_bounded]|].
+  split; [apply (data_len_built _ ctx swcuts); [exact SC|apply chunk_sink_sum_len]|].
   intro PS. destruct (plain_solid_cfg _ PS) as (C & N). destruct (PI C N) as (inner & WI & EQ).
-  unfold iv_part, Pipeline.encrypted. rewrite N. cbn [app]. rewrite plain_pieces by assumption. rewrite EQ.
+  unfold iv_part, Pipeline.encrypted. rewrite N. cbn [app]. rewrite chunk_sink_concat, plain_pieces by assumption. rewrite EQ.
   unfold solid_plain_stream. rewrite inner_entries_written by exact WI. reflexivity.
 Qed.
 
 Theorem solid_archive_accepted cfg ctx swcuts :
-  strict_ctx ctx -> small_pieces cfg ctx swcuts -> plain_inner cfg swcuts ->
+  strict_ctx ctx -> plain_inner cfg swcuts ->
   accepted_as (solid_archive_chunks cfg ctx swcuts) (RSolid (streamed_solid cfg ctx swcuts)).
 Proof.
-  intros SC SM PI. rewrite solid_archive_ser.
-  exact (writable_accepted (RSolid _) (streamed_solid_writable cfg ctx swcuts SC SM PI)).
+  intros SC PI. rewrite solid_archive_ser.
+  exact (writable_accepted (RSolid _) (streamed_solid_writable cfg ctx swcuts SC PI)).
 Qed.
 
 (* ---- re-creating a solid entry from file entries (SolidEntryBuilder::add_entry of each, build): the
@@ -411,13 +409,19 @@ Qed.
 (* the compressor hands on pieces that fit a chunk *)
 Definition compress_small : Prop := forall c lvl ws, Forall small (compress c lvl ws).
 
-Theorem rebuild_solid_writable cfg ctx extra inner : compress_small -> strict_ctx ctx -> Forall sextra_ok extra ->
+(* with a compressor that hands on pieces that fit a chunk, every write that reaches the sink does (no longer needed by
+   any theorem: the sinks cut what does not fit) *)
+Lemma small_pieces_rebuild cfg ctx inner : compress_small -> strict_ctx ctx -> Forall writable_normal inner ->
+  small_pieces cfg ctx (solid_writes inner).
+Proof.
+  intros CS SC W. unfold small_pieces, Pipeline.data_pieces. apply cwrite_small; [exact SC|].
+  unfold zwrite. destruct (g_comp cfg); try apply CS. apply solid_writes_small. exact W.
+Qed.
+Theorem rebuild_solid_writable cfg ctx extra inner : strict_ctx ctx -> Forall sextra_ok extra ->
   Forall writable_normal inner -> writable_solid (build_solid cfg ctx extra (solid_writes inner)).
 Proof.
-  intros CS SC EX W. apply build_solid_writable; try assumption.
-  - unfold small_pieces, Pipeline.data_pieces. apply cwrite_small; [exact SC|].
-    unfold zwrite. destruct (g_comp cfg); try apply CS. apply solid_writes_small. exact W.
-  - intros _ _. exists inner. split; [exact W|apply solid_writes_stream].
+  intros SC EX W. apply build_solid_writable; try assumption.
+  intros _ _. exists inner. split; [exact W|apply solid_writes_stream].
 Qed.
 
 (* ================================================================================================= *)
@@ -447,21 +451,19 @@ Definition job_entry (j : wjob) : read_entry :=
 Definition job_ok (j : wjob) : Prop :=
   match j with
   | JBuild cfg ctx sp wcuts =>
-    writable_spec sp /\ strict_ctx ctx /\ len (concat wcuts) < 2 ^ 128 /\
-    small_pieces (eff_cfg cfg (sp_kind sp)) ctx (eff_wcuts (sp_kind sp) wcuts)
-  | JStream cfg ctx sp wcuts => writable_spec sp /\ strict_ctx ctx /\ small_pieces cfg ctx wcuts
-  | JSolid cfg ctx extra swcuts =>
-    strict_ctx ctx /\ Forall sextra_ok extra /\ small_pieces cfg ctx swcuts /\ plain_inner cfg swcuts
-  | JSolidStream cfg ctx swcuts => strict_ctx ctx /\ small_pieces cfg ctx swcuts /\ plain_inner cfg swcuts
+    writable_spec sp /\ strict_ctx ctx /\ len (concat wcuts) < 2 ^ 128
+  | JStream cfg ctx sp wcuts => writable_spec sp /\ strict_ctx ctx
+  | JSolid cfg ctx extra swcuts => strict_ctx ctx /\ Forall sextra_ok extra /\ plain_inner cfg swcuts
+  | JSolidStream cfg ctx swcuts => strict_ctx ctx /\ plain_inner cfg swcuts
   end.
 
 Lemma job_accepted j : job_ok j -> accepted_as (job_chunks j) (job_entry j).
 Proof.
   destruct j as [cfg ctx sp wcuts|cfg ctx sp wcuts|cfg ctx extra swcuts|cfg ctx swcuts]; cbn [job_ok job_chunks job_entry].
-  - intros (WS & SC & RS & SM). exact (writable_accepted (RNormal _) (build_normal_writable cfg ctx sp wcuts WS SC RS SM)).
-  - intros (WS & SC & SM). exact (stream_file_accepted cfg ctx sp wcuts WS SC SM).
-  - intros (SC & EX & SM & PI). exact (writable_accepted (RSolid _) (build_solid_writable cfg ctx extra swcuts SC EX SM PI)).
-  - intros (SC & SM & PI). exact (solid_archive_accepted cfg ctx swcuts SC SM PI).
+  - intros (WS & SC & RS). exact (writable_accepted (RNormal _) (build_normal_writable cfg ctx sp wcuts WS SC RS)).
+  - intros (WS & SC). exact (stream_file_accepted cfg ctx sp wcuts WS SC).
+  - intros (SC & EX & PI). exact (writable_accepted (RSolid _) (build_solid_writable cfg ctx extra swcuts SC EX PI)).
+  - intros (SC & PI). exact (solid_archive_accepted cfg ctx swcuts SC PI).
 Qed.
 
 (* C14 writer_wf, pipeline layer: whatever sequence of built entries, streamed files, built solid
@@ -512,14 +514,14 @@ Ltac small_tac :=
   unfold small_pieces; match goal with |- Forall _ ?l => let v := eval vm_compute in l in change l with v end;
   repeat (constructor; [reflexivity|]); constructor.
 
-Example ex_jobs_ok : Forall (job_ok toy_E_of id_compress) ex_jobs.
+Example ex_jobs_ok : Forall job_ok ex_jobs.
 Proof.
   assert (strict_ctx ex_ctx) as SC by (repeat split; reflexivity).
   assert (writable_spec ex_spec) as WS by (repeat split; try reflexivity; constructor).
   unfold ex_jobs. constructor; [|constructor; [|constructor; [|constructor]]]; cbn [job_ok].
-  - split; [exact WS|]. split; [exact SC|]. split; [reflexivity|]. small_tac.
-  - split; [exact WS|]. split; [exact SC|]. small_tac.
-  - split; [exact SC|]. split; [small_tac|]. intros _ _. exists [ex_plain].
+  - split; [exact WS|]. split; [exact SC|]. reflexivity.
+  - split; [exact WS|exact SC].
+  - split; [exact SC|]. intros _ _. exists [ex_plain].
     split; [constructor; [exact ex_plain_writable|constructor]|]. unfold solid_plain_stream. cbn [map concat].
     rewrite !app_nil_r. reflexivity.
 Qed.
